@@ -5,9 +5,10 @@ pub mod common;
 pub mod qgen;
 pub mod c01;
 pub mod c04;
+pub mod c12;
 
 pub fn all() -> &'static [PropDef] {
-    static ALL: &[PropDef] = &[c01::DEF, c04::DEF];
+    static ALL: &[PropDef] = &[c01::DEF, c04::DEF, c12::DEF];
     ALL
 }
 
